@@ -994,4 +994,155 @@ Proof.
       [apply SL_abandon | apply SL_set_eof_true; exact H3].
 Qed.
 
+
+Lemma SL_process_pdu now p s : SL s -> s_state s <> TTerminated -> SL (fst (s_process_pdu now p s)).
+Proof.
+  intros H Hl. unfold Send.s_process_pdu.
+  set (g := sphase_eqb (s_phase s) SendEof && negb (ssuspended s)).
+  set (s0 := if g then supd_inact (c_reset now) s else s).
+  assert (H0 : SL s0).
+  { unfold s0. destruct g; [|exact H].
+    eapply (SL_mono s); [exact H | reflexivity | reflexivity | reflexivity | auto | auto | auto |]. intros _. reflexivity. }
+  assert (Hl0 : s_state s0 <> TTerminated) by (unfold s0; destruct g; exact Hl).
+  (* in SendEof and not suspended the inactivity timer has just been re-armed *)
+  assert (Hin : s_phase s0 = SendEof -> s_state s0 = TActive -> inact_run s0 = true).
+  { unfold s0, g. intros Hp Ha. destruct (sphase_eqb (s_phase s) SendEof) eqn:E1; cbn [andb].
+    - destruct (ssuspended s) eqn:E2; cbn [negb]; [|reflexivity].
+      unfold ssuspended in E2. cbn in Ha. rewrite Ha in E2. discriminate.
+    - cbn in Hp. rewrite Hp in E1. discriminate. }
+  clearbody s0. clear H Hl g.
+  destruct (cfg_mode (s_cfg s0)); destruct p; cbn [fst]; try exact H0.
+  - (* Finished, acknowledged *)
+    apply SL_alive; cbn; auto; discriminate.
+  - (* ACK *)
+    destruct (ack_dir a); cbn [fst]; try exact H0.
+    destruct H0 as (A & B & C). unfold SL. cbn [s_state s_phase s_ack supd_ack set_s_timer]. splits; auto.
+    + intros Ha. specialize (B Ha). unfold alive in *. cbn [s_phase supd_ack set_s_timer].
+      destruct (s_phase s0) eqn:Ep; auto.
+      * unfold inact_run in *. cbn. rewrite (Hin eq_refl Ha). rewrite !orb_true_r. reflexivity.
+      * unfold inact_run in *. cbn. rewrite (C Ha eq_refl). rewrite !orb_true_r. reflexivity.
+  - (* NAK *)
+    eapply (SL_mono s0); [exact H0 | reflexivity | reflexivity | reflexivity | auto | | auto | auto].
+    cbn. intros Hn. destruct (s_naks s0) as [|x t] eqn:En; [discriminate|].
+    unfold dedup. cbn [app dedup_acc existsb]. reflexivity.
+  - (* Finished, unacknowledged *)
+    destruct (md_closure (s_meta s0)); cbn [fst]; [apply SL_shutdown|exact H0].
+Qed.
+
+Lemma SL_send_missing_data now s : SL s -> SL (fst (send_missing_data now s)).
+Proof.
+  intros H. unfold Send.send_missing_data. destruct (s_naks s) as [|[a b] t] eqn:En; [exact H|].
+  assert (H1 : SL (supd_inact (c_restart now) (set_s_naks t s))).
+  { destruct H as (A & B & C). unfold SL. cbn [s_state s_phase s_ack supd_inact set_s_naks set_s_timer]. splits; auto.
+    - intros Ha. unfold alive, inact_run. cbn. destruct (s_phase s); rewrite ?orb_true_r; reflexivity. }
+  destruct (65535 <? b - a); cbn [fst]; [exact H1|].
+  destruct ((a =? 0) && (b - a =? 0)); cbn [fst]; unfold Send.send_metadata, Send.send_file_segment;
+    (eapply (SL_ext (supd_inact (c_restart now) (set_s_naks t s))); [exact H1 | reflexivity ..]).
+Qed.
+
+Lemma SL_send_pdu now s : SL s -> s_state s <> TTerminated -> SL (fst (s_send_pdu now s)).
+Proof.
+  intros H Hl. unfold Send.s_send_pdu.
+  destruct (is_some (s_prompt s)); cbn [fst].
+  { unfold Send.send_prompt. destruct (s_prompt s); [|exact H].
+    eapply (SL_mono s); [exact H | reflexivity | reflexivity | reflexivity | auto | auto | | auto]. intros _. reflexivity. }
+  destruct (s_phase s) eqn:Ep.
+  - (* SendMetadata *)
+    unfold Send.send_metadata. destruct (_ && _); cbn [fst].
+    + apply SL_alive; cbn; auto; discriminate.
+    + unfold enter_send_eof. apply SL_alive; try (cbn; discriminate).
+      unfold alive. cbn [s_phase supd_inact set_s_timer set_s_phase].
+      change (eof_flag (supd_inact (c_pause now) (supd_inact (c_reset now) (set_s_phase SendEof (prepare_eof None (semit_pdu (PMetadata (s_meta s)) s))))))
+        with (eof_flag (prepare_eof None (semit_pdu (PMetadata (s_meta s)) s))).
+      rewrite prepare_eof_flag. reflexivity.
+  - (* SendData *)
+    assert (H1 : SL (fst (if negb (is_nil (s_naks s)) then send_missing_data now s
+                          else (send_file_segment (s_pos s) (cfg_seg (s_cfg s)) s, ROk))) /\
+                 s_phase (fst (if negb (is_nil (s_naks s)) then send_missing_data now s
+                          else (send_file_segment (s_pos s) (cfg_seg (s_cfg s)) s, ROk))) = SendData).
+    { destruct (negb _).
+      - split; [apply SL_send_missing_data; exact H|].
+        unfold Send.send_missing_data. destruct (s_naks s) as [|[a b] t]; [exact Ep|].
+        destruct (65535 <? b - a); cbn [fst]; [exact Ep|]. destruct (_ && _); cbn; exact Ep.
+      - cbn [fst]. split; [unfold Send.send_file_segment; sl_leaf; exact H | exact Ep]. }
+    destruct (if negb (is_nil (s_naks s)) then _ else _) as [s1 r]. cbn [fst] in H1. destruct H1 as (H1 & Ep1).
+    destruct r; cbn [fst]; try exact H1.
+    destruct (_ =? _); cbn [fst]; [|exact H1].
+    unfold enter_send_eof. apply SL_alive; try (cbn; discriminate).
+    unfold alive. cbn [s_phase supd_inact set_s_timer set_s_phase].
+    change (eof_flag (supd_inact (c_pause now) (supd_inact (c_reset now) (set_s_phase SendEof (prepare_eof None s1)))))
+      with (eof_flag (prepare_eof None s1)).
+    rewrite prepare_eof_flag. reflexivity.
+  - (* SendEof *)
+    destruct (negb (is_nil (s_naks s))); [apply SL_send_missing_data; exact H|].
+    assert (H1 : SL (send_eof now s) /\ s_state (send_eof now s) = s_state s).
+    { unfold Send.send_eof. destruct (s_eof s) as [[e [|]]|] eqn:Ee; try (split; [exact H|reflexivity]).
+      destruct (set_eof_flag_fields false (semit_pdu (PEof e) (supd_ack (c_restart now) s))) as (A & B & C & D & E).
+      split; [|rewrite A; reflexivity].
+      destruct H as (HA & HB & HC). unfold SL. rewrite A, B, C. cbn [s_state s_phase s_ack semit_pdu set_s_out supd_ack set_s_timer].
+      splits; auto.
+      - intros Ha. unfold alive. rewrite B. cbn [s_phase semit_pdu set_s_out supd_ack set_s_timer]. rewrite Ep.
+        unfold ack_run. rewrite E. cbn. rewrite !orb_true_r. reflexivity.
+      - rewrite Ep. discriminate. }
+    destruct H1 as (H1 & Hs1). set (s1 := send_eof now s) in *. clearbody s1.
+    assert (H2 : SL (if s_eof_ind s1 then set_s_eof_ind false (semit_ind IEoFSent s1) else s1)).
+    { destruct (s_eof_ind s1); [sl_leaf|]; exact H1. }
+    remember (if s_eof_ind s1 then _ else s1) as s2 eqn:E2. clear E2 H1.
+    destruct (cfg_mode (s_cfg s2)); cbn [fst]; [exact H2|].
+    destruct (md_closure (s_meta s2)); cbn [fst]; [exact H2|apply SL_shutdown].
+  - (* Cancelled *)
+    cbn [fst]. unfold Send.send_eof. destruct (s_eof s) as [[e [|]]|] eqn:Ee; try exact H.
+    destruct (set_eof_flag_fields false (semit_pdu (PEof e) (supd_ack (c_restart now) s))) as (A & B & C & D & E).
+    destruct H as (HA & HB & HC). unfold SL. rewrite A, B, C. cbn [s_state s_phase s_ack semit_pdu set_s_out supd_ack set_s_timer].
+    splits; auto.
+    + intros Ha. unfold alive. rewrite B. cbn [s_phase semit_pdu set_s_out supd_ack set_s_timer]. rewrite Ep.
+      unfold ack_run. rewrite E. cbn. rewrite !orb_true_r. reflexivity.
+    + intros Ha _. unfold inact_run. rewrite E. cbn. apply HC; assumption.
+  - (* Finished: the ACK goes out and the transaction ends *)
+    cbn [fst]. unfold Send.send_ack. destruct (s_ack s) eqn:Ea; [apply SL_shutdown|exact H].
+Qed.
+
+Theorem SL_sstep now o s : SL s -> s_state s <> TTerminated -> SL (fst (sstep now o s)).
+Proof.
+  intros H Hl. unfold Send.sstep.
+  assert (H0 : SL (set_s_out [] s)) by (sl_leaf; exact H).
+  assert (Hl0 : s_state (set_s_out [] s) <> TTerminated) by exact Hl.
+  destruct o; cbn [fst].
+  - apply SL_process_pdu; assumption.
+  - destruct (s_has_pdu_to_send _); [apply SL_send_pdu; assumption|exact H0].
+  - destruct (s_until_timeout now _) as [[|?]|]; [apply SL_handle_timeout; assumption| |]; exact H0.
+  - apply SL_cancel_.
+  - apply SL_suspend; assumption.
+  - apply SL_resume; assumption.
+  - unfold s_send_report. sl_leaf. exact H0.
+  - apply SL_shutdown.
+  - sl_leaf. exact H0.
+Qed.
+Lemma SL_init now cfg m file : SL (s_new now cfg m file).
+Proof. apply SL_alive; cbn; auto; discriminate. Qed.
+
+(* an active send transaction is never stuck: it has a PDU to send or a timer running *)
+Theorem send_never_stuck now s : SL s -> s_state s = TActive ->
+  s_has_pdu_to_send s = true \/ s_until_timeout now s <> None.
+Proof.
+  intros (A & B & C) Ha. specialize (B Ha). unfold s_has_pdu_to_send, s_until_timeout, ssuspended. rewrite Ha. cbn [tstate_eqb].
+  unfold alive in B. destruct (is_some (s_prompt s)); [left; reflexivity|]. cbn [orb].
+  destruct (s_phase s) eqn:Ep; try (left; reflexivity).
+  - apply orb_true_iff in B as [B|B].
+    + apply orb_true_iff in B as [B|B].
+      * left. rewrite orb_comm. exact B.
+      * right. unfold t_until. unfold ack_run in B. apply negb_true_iff in B. rewrite B.
+        destruct (c_paused (t_nak (s_timer s))); destruct (c_paused (t_inact (s_timer s))); cbn; discriminate.
+    + right. unfold t_until. unfold inact_run in B. apply negb_true_iff in B. rewrite B.
+      destruct (c_paused (t_ack (s_timer s))); destruct (c_paused (t_nak (s_timer s))); cbn; discriminate.
+  - apply orb_true_iff in B as [B|B].
+    + apply orb_true_iff in B as [B|B].
+      * left. exact B.
+      * right. unfold t_until. unfold ack_run in B. apply negb_true_iff in B. rewrite B.
+        destruct (c_paused (t_nak (s_timer s))); destruct (c_paused (t_inact (s_timer s))); cbn; discriminate.
+    + right. unfold t_until. unfold inact_run in B. apply negb_true_iff in B. rewrite B.
+      destruct (c_paused (t_ack (s_timer s))); destruct (c_paused (t_nak (s_timer s))); cbn; discriminate.
+  - left. apply A; [reflexivity|]. rewrite Ha. discriminate.
+Qed.
+
 End SendP.
